@@ -40,7 +40,29 @@ def gen_prog(r, shards, ordered, avail):
     return "N0=const 1 1:1 ; OUT N0", 1, True
 
 
+def directed():
+    """results whose invocations depend on each other along paths of different lengths, consumed together by a program
+    whose tasks land on machines that have compiled none of them (workers compile an invocation's dependencies first)"""
+    rows = "1:1 2:2 3:3 4:4 5:5"
+    for cfg in ("bm M1 P2", "bm M1 P3", "bm M2 P4", "local"):
+        for depth in (2, 3, 4):
+            for nsh in (1, 2):
+                ops = ["run N0=const %d %s ; OUT N0" % (nsh, rows)]
+                for d in range(depth):
+                    ops.append("run N0=map R%d inc ; OUT N0" % d)
+                for other in range(0, depth):
+                    for final in ("N0=map R%d id ; N1=map R%d id ; N2=cogroup N0 N1 ; OUT N2" % (depth, other),
+                                  "N0=reshard R%d 3 ; N1=reshard R%d 3 ; N2=cogroup N0 N1 ; OUT N2" % (depth, other),
+                                  "N0=cogroup R%d R%d ; N1=reduce N0 add ; OUT N1" % (other, depth)):
+                        yield "%s ;; %s ;; run %s" % (cfg, " ;; ".join(ops), final)
+
+
 def gen(r, tier):
+    alld = list(directed())
+    if tier == "quick":
+        alld = [c for c in alld if r.below(5) == 0]
+    for c in alld:
+        yield c
     n = 250 if tier == "quick" else 6000
     for i in range(n):
         cfg = "%s CH%d" % (r.choice(CONFIGS), r.choice([1, 2, 128, 128]))
